@@ -518,7 +518,7 @@ func runSchedBatch(rng *rand.Rand, n int, mal bool, emit func(*JCase)) {
 	for i := range seeds {
 		seeds[i] = rng.Int63()
 	}
-	workers := 6
+	workers := 4
 	if runtime.NumCPU() < workers {
 		workers = runtime.NumCPU()
 	}
